@@ -290,11 +290,15 @@ def classify_exposed(pr, final):
     """which results does extract_results() expose: ('cached', p) / ('raw', p, ok) / ('nothing',) / ('unknown',)"""
     if isinstance(final, str):
         return ("nothing",)
+    solves = [e for e in pr.events if e[0] == "X"]
     for p in reversed([e[1] for e in pr.events if e[0] == "C"]):
         objs, copies = pr.snap[p]
         if all(f is o for f, o in zip(final, objs)):
-            return ("cached", p)
-    solves = [e for e in pr.events if e[0] == "X"]
+            # the cached object must hold the output of the solve at p (and must not have been touched since)
+            ks = [k for k, e in enumerate(solves) if e[1] == p and e[2]]
+            fresh = bool(ks) and ks[-1] < len(pr.raw) and all(
+                results_equal(f, r) and results_equal(cp, r) for f, cp, r in zip(final, copies, pr.raw[ks[-1]]))
+            return ("cached", p) if fresh else ("stale-cache", p)
     for k in reversed(range(len(pr.raw))):
         if all(results_equal(f, r) for f, r in zip(final, pr.raw[k])):
             return ("raw", solves[k][1], solves[k][2])
@@ -587,15 +591,15 @@ def run(c):
     check_instances(c, [dict(x) for x in CORPUS], "corpus")
     if c.big:
         n = stream_exhaustive(c, rng, 5, ("multi", "single"))
-        n += stream_exhaustive(c, rng, 3, ("minabs",))
+        n += stream_exhaustive(c, rng, 4, ("minabs",))
         c.exhaustive = True
         c.notes.append("all 2^n success/failure scripts for n = 1..5 priorities, multi-pass and single-pass "
-                       "(n <= 3 for the MinAbs variant): %d runs; " % n)
+                       "(n <= 4 for the MinAbs variant): %d runs; " % n)
     else:
         n = stream_exhaustive(c, rng, 3, ("multi", "single"))
         c.exhaustive = False
         c.notes.append("all 2^n success/failure scripts for n = 1..3 priorities, both variants: %d runs; " % n)
-    check_instances(c, [gen_case(rng) for _ in range(c.n(120, 600))], "random")
+    check_instances(c, [gen_case(rng) for _ in range(c.n(120, 3000))], "random")
     c.programs = c.evaluations
     c.notes.append("the unbounded claim (any goal set, any outcome oracle) is carried by the theorems.")
 
